@@ -4,6 +4,7 @@ import (
 	"bufio"
 	"fmt"
 	"math"
+	"regexp"
 	"strconv"
 
 	"verif/harness/core"
@@ -17,9 +18,9 @@ func showHits(hits []pgdump.SearchResult, err error) string {
 	}
 	parts := make([]string, len(hits))
 	for i, h := range hits {
-		s := fmt.Sprintf("%s/%s/%d/%s=%s", hexs(h.Database), hexs(h.Table), h.RowNum, hexs(h.Column), core.CanonVal(h.Value))
+		s := fmt.Sprintf("%s/%s/%d/%s=%s", hexs(h.Database), hexs(h.Table), h.RowNum, hexs(h.Column), canonS(h.Value))
 		if h.Row != nil {
-			s += "+" + core.CanonVal(h.Row)
+			s += "+" + canonS(h.Row)
 		}
 		parts[i] = s
 	}
@@ -28,7 +29,7 @@ func showHits(hits []pgdump.SearchResult, err error) string {
 
 func init() {
 	// search: args = pattern(hex), caseSensitive, includeRow, maxResults, dump
-	core.Register("search", func(args []string) string {
+	h := func(args []string) string {
 		opts := &pgdump.SearchOptions{
 			Pattern:       string(core.Unhex(args[0])),
 			CaseSensitive: args[1] == "1",
@@ -36,11 +37,144 @@ func init() {
 			MaxResults:    core.Atoi(args[3]),
 		}
 		return showHits(pgdump.SearchInDump(parseDump(args[4]), opts))
+	}
+	core.Register("search", h)
+	// searchbytes: the same call on dumps that hold []byte values (b<hex> in the dump text)
+	core.Register("searchbytes", h)
+	// searchuni: the same call; patterns and texts come from the corpus below, for which the Lean side has the
+	// truth table of Go's regexp (full RE2 syntax, non-ASCII case pairs, invalid UTF-8)
+	core.Register("searchuni", h)
+}
+
+// ---- the regex engine as a table (family searchuni) ----------------------------------------------------------
+// The C15 theorems are parametric in the regular-expression engine.  For patterns and texts outside the small Lean
+// engine (Unicode case folding, classes, invalid UTF-8) the Lean side gets the engine as a finite table, produced
+// here by executing Go's regexp on a fixed corpus: for every corpus pattern p the rows `p` and `(?i)p`, each either
+// "E" (does not compile) or one bit per corpus text (MatchString).  The generators draw patterns, strings, keys and
+// scalars from this corpus only.
+
+var uniTexts = []string{
+	"", "k", "K", "\u212a", "s", "S", "\u017f", "é", "É", "été", "ÉTÉ", "Été", "e\u0301", "straße", "STRASSE", "strasse", "ß", "\u1e9e",
+	"\u01c4", "\u01c5", "\u01c6", "σ", "ς", "Σ", "αβγ", "ΑΒΓ", "日本語", "日", "i", "I", "\u0130", "\u0131", "\u00b5", "\u03bc", "\u039c",
+	"\u00c5", "\u212b", "å", "\u03a9", "\u2126", "ω", "naïve", "NAÏVE", "alice", "ALICE", "Alice", "bob", "a@b.com", "user42", "2024-01-15",
+	"hello world", "Hello\nWorld", "world", "needle", "NEEDLE", "x", "X", "key", "KEY", "kk", "kelvin \u212a!", "\\xdeadbeef", "\\x6b", "deadbeef",
+	"\xff", "k\xff", "é\xc3", "\xc3\x28", "\xe2\x84", "a\x00b", "\t", " ", "ÿ", "Ÿ", "nil", "<nil>", "NULL", "TRUE", "1e+06x", "1000000", "abc", "ABC", "aBc",
+}
+
+var uniInts = []int64{0, -1, 7, 12, 42, 1000000, 2147483647, -9223372036854775808}
+
+var uniPatterns = []string{
+	"k", "K", "\u212a", "s", "\u017f", "é", "É", "été", "ÉTÉ", "^été$", "stra(ß|ss)e", "ß", "\u1e9e", "[j-l]", "[r-t]", "[^k]", "^[^k]$", "[^\u212a]",
+	"σ", "ς", "Σ", "\\p{Greek}", "\\pL+", "\\p{Lu}", "^\\p{Ll}+$", "^\\P{L}+$", "[[:alpha:]]", "[[:upper:]]", "[[:^alpha:]]", "\\w", "^\\w+$", "\\W", "\\d",
+	"^\\d+$", "^-?\\d+$", "\\s", "\\bk\\b", "\\Bk", ".", "^.$", "^..$", "^.{3}$", "(?s)^.+$", "(?m)^world$", "^world$", "^World$", "a|é", "alice|bob", "^(alice|bob)$",
+	"\u01c6", "\u01c5", "\u01c4", "i", "I", "\u0130", "\u0131", "\u00b5", "\u03bc", "\u00c5", "å", "\u212b", "\u03a9", "ω", "\\x{212A}", "\\x6b", "\\x6B", "[\\x{212A}]",
+	"(?-i)k", "(?i)k", "(?i:K)s", "(?i)(?-i)K", "needle", "NEEDLE", "^$", "", "x*", "x+", "\\xff", "ÿ", "日", "本語$", "1e\\+06", "1000000", "^-1$", "true", "TRUE", "nil",
+	"\\\\x", "deadbeef", "\\\\xdead", "a.b", "a\\x00b", "abc", "[a-c]{3}", "^[A-C]+$", "\\Qa.b\\E", "\\Qk\\E", "e\u0301", "\\pM", "[é]", "[É-Ê]", "[à-þ]",
+	// not valid RE2 syntax / not valid UTF-8
+	"(", ")", "[a", "a{2,1}", "\\8", "(?z)", "*", "a**", "[b-a]", "\\pX", "(?i", "x{1001}", "\xff", "k\xc3", "\\C", "(?P<n", "[[:foo:]]", "\\",
+}
+
+func init() {
+	core.RegisterTable(func(out *bufio.Writer) {
+		var texts []string
+		seen := map[string]bool{}
+		add := func(t string) {
+			if !seen[t] {
+				seen[t] = true
+				texts = append(texts, t)
+			}
+		}
+		for _, t := range uniTexts {
+			if seen[t] {
+				panic("duplicate corpus text " + t)
+			}
+			add(t)
+		}
+		for _, n := range uniInts {
+			add(fmt.Sprintf("%v", n))
+		}
+		add("true")
+		add("false")
+		for _, f := range f64Samples {
+			add(searchText(f))
+		}
+		for _, f := range f32Samples {
+			add(fmt.Sprintf("%v", interface{}(f)))
+		}
+		out.WriteString("/-- corpus of family searchuni: texts (hex) the table below has a column for -/\n")
+		out.WriteString("def reTexts : List String := [\n")
+		for i, t := range texts {
+			sep := ","
+			if i == len(texts)-1 {
+				sep = ""
+			}
+			fmt.Fprintf(out, "  \"%s\"%s\n", hexs(t), sep)
+		}
+		out.WriteString("]\n")
+		out.WriteString("/-- the strings among them that the generators use as string values and keys (hex); the rest are scalar texts -/\n")
+		fmt.Fprintf(out, "def reStringCount : Nat := %d\n", len(uniTexts))
+		out.WriteString("def reInts : List Int := [")
+		for i, n := range uniInts {
+			if i > 0 {
+				out.WriteString(", ")
+			}
+			fmt.Fprintf(out, "%d", n)
+		}
+		out.WriteString("]\n")
+		out.WriteString("/-- user patterns of the corpus (hex) -/\n")
+		out.WriteString("def rePatterns : List String := [\n")
+		for i, p := range uniPatterns {
+			sep := ","
+			if i == len(uniPatterns)-1 {
+				sep = ""
+			}
+			fmt.Fprintf(out, "  \"%s\"%s\n", hexs(p), sep)
+		}
+		out.WriteString("]\n")
+		out.WriteString("/-- Go's regexp on the corpus: effective pattern (hex) ↦ \"E\" (regexp.Compile fails) or one character per text of\n`reTexts` (`1` = MatchString is true) -/\n")
+		out.WriteString("def reRows : List (String × String) := [\n")
+		rowSeen := map[string]bool{}
+		var rows []string
+		for _, p0 := range uniPatterns {
+			for _, p := range []string{p0, "(?i)" + p0} {
+				if rowSeen[p] {
+					continue
+				}
+				rowSeen[p] = true
+				re, err := regexp.Compile(p)
+				bits := "E"
+				if err == nil {
+					b := make([]byte, len(texts))
+					for i, t := range texts {
+						if re.MatchString(t) {
+							b[i] = '1'
+						} else {
+							b[i] = '0'
+						}
+					}
+					bits = string(b)
+				}
+				rows = append(rows, fmt.Sprintf("  (\"%s\", \"%s\")", hexs(p), bits))
+			}
+		}
+		out.WriteString(joinS(rows, ",\n"))
+		out.WriteString("\n]\n")
 	})
 }
 
 // floats whose %v text the model needs (the text is produced by executing fmt, never re-implemented)
-var f64Samples = []float64{0, 1, -1, 1.5, -2.25, 0.1, 100, 12345.678, 1e21, 1e-7, 3.14159, 42, 1e6, 123456789, math.Inf(1), math.Inf(-1), math.NaN(), math.MaxFloat64, math.SmallestNonzeroFloat64, -0.5}
+var f64Samples = []float64{0, 1, -1, 1.5, -2.25, 0.1, 100, 12345.678, 1e21, 1e-7, 3.14159, 42, 1e6, 123456789, math.Inf(1), math.Inf(-1), math.NaN(), math.MaxFloat64, math.SmallestNonzeroFloat64, -0.5,
+	999999.5, 1234567.89, -2500000.25, 1e14, 999999999999999, 1e15, 1.5e15, -1e6}
+
+// searchText is the text a float64 is SEARCHED as (Spec: the text PostgreSQL prints for a numeric / float8 / JSON number):
+// positional shortest decimal for 1e6 <= |f| < 1e15, fmt's %v otherwise (fix search/05; before it: %v throughout, so a
+// numeric 1000000 was searched as "1e+06")
+func searchText(f float64) string {
+	if a := math.Abs(f); a >= 1e6 && a < 1e15 {
+		return strconv.FormatFloat(f, 'f', -1, 64)
+	}
+	return fmt.Sprintf("%v", interface{}(f))
+}
 var f32Samples = []float32{0, 1, -1, 1.5, -2.25, 0.1, 100, 12345.678, 1e21, 3.14159, 42, 16777216, float32(math.Inf(1)), float32(math.NaN())}
 
 func init() {
@@ -55,6 +189,16 @@ func init() {
 			fmt.Fprintf(out, "  (0x%016x, %s)%s\n", math.Float64bits(f), strconv.Quote(fmt.Sprintf("%v", interface{}(f))), sep)
 		}
 		out.WriteString("]\n")
+		out.WriteString("/-- the text a float64 is searched as where it differs from `%v`: positional decimal for 1e6 <= |x| < 1e15 (bits, text) -/\n")
+		out.WriteString("def f64SearchText : List (Nat × String) := [\n")
+		var rows []string
+		for _, f := range f64Samples {
+			if searchText(f) != fmt.Sprintf("%v", interface{}(f)) {
+				rows = append(rows, fmt.Sprintf("  (0x%016x, %s)", math.Float64bits(f), strconv.Quote(searchText(f))))
+			}
+		}
+		out.WriteString(joinS(rows, ",\n"))
+		out.WriteString("\n]\n")
 		out.WriteString("/-- `fmt.Sprintf(\"%v\", x)` for sample float32 values (bits, text) -/\n")
 		out.WriteString("def f32Text : List (Nat × String) := [\n")
 		for i, f := range f32Samples {
